@@ -77,7 +77,7 @@ type c11Op struct {
 func c11Run(w *W) {
 	kind := allKinds[w.Choose(simrt.SShape, len(allKinds))]
 	ntask := 3 + w.Choose(simrt.SShape, 4)
-	tran := w.simFallback([]string{"msg", "inproc", "tcp", "ipc", "tls+tcp"}[w.Choose(simrt.SShape, 5)]) // tcp / ipc / tls+tcp: the real endpoint code on the simulated network
+	tran := w.simFallback([]string{"msg", "inproc", "tcp", "ipc", "tls+tcp", "ws", "wss"}[w.Choose(simrt.SShape, 7)]) // tcp / ipc / tls+tcp: the real endpoint code on the simulated network
 	w.SetShape("kind", kind)
 	w.SetShape("tasks", ntask)
 	w.SetShape("tran", tran)
